@@ -268,7 +268,7 @@ def sys_recursion():
 
 
 # ---------------------------------------------------------------------------------------------
-# timeout: handler timeouts placed at every segment (C10; finding F5)
+# timeout: handler timeouts placed at every segment (C10; F5 was found here and repaired)
 # ---------------------------------------------------------------------------------------------
 def timeout_scn(tmo, pre, child_sleep, grand_sleep, awaited, second_handler, later_event, target, extra=''):
     r_ops = []
@@ -318,7 +318,7 @@ def gen_timeout(seed):
     # give one or two event types a short timeout
     for ty in rng.sample(['R1', 'R2', 'C1', 'C2', 'G1'], rng.randint(1, 2)):
         s['events'][ty] = {'timeout': rng.choice([1, 2, 3, 4, 6, 8])}
-    # replace unbounded idles by bounded ones (the abandoned-frame finding F5 makes them hang)
+    # bounded idles: a lost completion shows as a C15.hang witness at the bound instead of a scenario that runs to the horizon
     for ops in s['drivers']:
         for op in ops:
             if op[0] == 'idle':
